@@ -2,11 +2,14 @@
    The universal correctness statement about the library's matching routine is FALSE of the
    faithful model (no blossom contraction) and stays visible as a refutation; what is proved
    is the checker that judges every implementation output, so each accepted input is validated
-   with a certificate (the matching the implementation chose).  Known findings: F-C05-*. *)
+   with a certificate (the matching the implementation chose).  Known findings: F-C05-*.
+   Proved for all inputs (proofs/EncArom.v): whenever the reader and kekulize succeed, NO atom of the graph is left
+   aromatic - every aromatic atom is a key of the delocalisation subgraph from the moment it is added, keys are never
+   removed, and kekulize clears the flag of every key (C05_kekulize_clears_every_aromatic_atom). *)
 From Coq Require Import String List ZArith NArith Bool.
 Import ListNotations.
 From Selfies Require Import Base Generated Atoms Grammar Decoder PySet Matching Smiles Kekulize Encoder
-  IndexSpec IndexCode Reader RoundTrip EncoderFacts PureFacts.
+  IndexSpec IndexCode Reader RoundTrip EncoderFacts PureFacts EncArom.
 Local Open Scope string_scope.
 
 Definition C05_matching_sound_statement : Prop :=
@@ -35,7 +38,21 @@ Theorem C05_valence_tables_documented :
   (forall e, assoc e aromatic_valences = assoc e doc_aromatic_valences).
 Proof. exact valence_tables_documented. Qed.
 
+(* whenever kekulize returns a graph, none of its atoms is aromatic any more *)
+Theorem C05_kekulize_clears_every_aromatic_atom : forall smiles attributable m0 m1,
+  smiles_to_mol smiles attributable = Ok m0 -> kekulize m0 = Ok (Some m1) ->
+  Forall (fun p => a_aromatic (fst p) = false) (m_atoms m1).
+Proof. intros smiles attributable m0 m1 Ep Ek. exact (kekulize_dearomatizes m0 m1 (parsed_aro _ _ _ Ep) Ek). Qed.
+
+Example C05_kekulize_example :
+  match smiles_to_mol (lit "c1ccc2[nH]ccc2c1") false with
+  | Ok m0 => existsb (fun p => a_aromatic (fst p)) (m_atoms m0) &&
+             match kekulize m0 with Ok (Some m1) => forallb (fun p => negb (a_aromatic (fst p))) (m_atoms m1) | _ => false end
+  | Err _ => false end = true.
+Proof. vm_compute. reflexivity. Qed.
+
 Print Assumptions C05_valence_tables_documented.
 Print Assumptions C05_matching_sound_refuted.
 Print Assumptions C05_statement_refuted.
 Print Assumptions C05_checker_sound.
+Print Assumptions C05_kekulize_clears_every_aromatic_atom.
